@@ -165,6 +165,15 @@ Theorem C16_sched_free_never_raised : forall rs gpus,
 Proof. intros rs gpus. split; [apply update_free_not_raised|apply handed_not_raised]. Qed.
 Print Assumptions C16_sched_free_never_raised.
 
+(** ... and it accounts for every resident runner (all of them, whoever holds their locks): what it leaves as free plus the
+    usage predicted for the loaded runners on that GPU fits into the GPU's total memory; free is 0 if the prediction exceeds it *)
+Theorem C16_sched_free_accounts_for_resident : forall rs gpus g',
+  existsb rn_llama rs = true -> In g' (update_free rs gpus) ->
+  (predicted rs gpus g' <= x_total g' -> x_free g' + predicted rs gpus g' <= x_total g') /\
+  (x_total g' < predicted rs gpus g' -> x_free g' = 0).
+Proof. exact update_free_accounts. Qed.
+Print Assumptions C16_sched_free_accounts_for_resident.
+
 (** pickBestFullFitByLibrary: a non-nil answer is a non-empty set of GPUs of the list it was given, of one
     library/variant, chosen with a parallel setting it was allowed to try, and PredictServerFit said yes for exactly it *)
 Theorem C16_sched_pick_full_sound : forall gpus spread np mp o p chosen,
